@@ -307,7 +307,7 @@ CHECKS['C13'] = dict(
     title='thread-safe option makes concurrent use linearizable', level='exploration',
     jobs=c13_jobs, evidence=c13_evidence,
     rule='controlled mode: small client programs (2 threads x 2-3 ops, 3 threads x 2 ops, directed ones such as addlast || popfirst;popfirst, toarray || addlast;addlast, put || remove;get || get;remove, locked walk || put;remove, find_min/find_max/find_nearest || remove;put, getat;addat || popat;popat) '
-         'over put/get/remove/clear/locked-walk (+ find_min, find_max, find_nearest with the copy flag on the tree; addat/getat/popat/removeat (+ setat, resize(1|6) on the vector) at positions 0-1, removefirst/removelast and reverse() on list and vector; map values go in through put/putstr/putstrf and come back through get/getstr; list, queue and stack also run with a setsize() limit of 2 (controlled) / 3 (stress), where adds at the limit must be refused; one stand-alone getnext(copy) on a fresh cursor without the caller holding the lock on list tables (named), list and vector; an eighth container kind, the list table without the unique option, with getmulti and unnamed first-entry reads, modelled as an ordered multimap) '
+         'over put/get/remove/clear/locked-walk (+ find_min, find_max, find_nearest with the copy flag on the tree; addat/getat/popat/removeat (+ setat, resize(1|6) on the vector) at positions 0-1, removefirst/removelast and reverse() on list and vector; map values go in through put/putstr/putstrf and come back through get/getstr; list tables also run load() of a two-line file (the multi table is INSERTTOP, load appends at the bottom); list, queue and stack also run with a setsize() limit of 2 (controlled) / 3 (stress), where adds at the limit must be refused; one stand-alone getnext(copy) on a fresh cursor without the caller holding the lock on list tables (named), list and vector; an eighth container kind, the list table without the unique option, with getmulti and unnamed first-entry reads, modelled as an ordered multimap) '
          'on tree, hash, unique list table, list, queue, stack, vector created thread-safe; each program is run under every schedule (depth-first over the choices at outermost lock acquire / after release / allocator calls / usleep; '
          'a worker waiting for an owned mutex is disabled) when that fits the budget, else under budget DFS + budget random schedules; every history (invocation/response stamps, results, final contents) is searched for a linearization (Wing-Gong, memoised). '
          'stress mode: 4-8 truly concurrent threads with random delays at the same points, unique values; maps checked per key (P-compositionality), sequences by conservation / no-duplicate / not-from-the-future / per-producer FIFO rules (copying gets included), ordered lookups of the tree by a stored-by-an-earlier-put rule; the same workload on a TSan build. '
@@ -334,11 +334,11 @@ CHECKS['C16'] = dict(
 
 CHECKS['C18'] = dict(
     title='hash functions equal their published algorithms', level='exploration',
-    jobs=lambda tier, seed: [Job('h_hash', 'asan', extra_srcs=REFS_HASH, args=(['--seeds', '20', '--big', '512', '--huge', '1'] if tier == 'thorough' else ['--seeds', '1', '--big', '64']))],
+    jobs=lambda tier, seed: [Job('h_hash', 'asan', extra_srcs=REFS_HASH, args=(['--seeds', '20', '--big', '512', '--huge', '1'] if tier == 'thorough' else ['--seeds', '1', '--big', '64', '--huge', '2']))],
     rule='evaluation = one (length, alignment, content class) cell: the bytes are placed so that they end exactly at the end of their heap block with the slack in front ASan-poisoned, hashed with qhashmd5, qhashmurmur3_32, '
          'qhashmurmur3_128, qhashfnv1_32, qhashfnv1_64 (result buffers at arbitrary alignment) and compared with independent byte-wise references; then hashed again at another address/alignment with different bytes behind the buffer (results must agree). '
          'Cell grid: every length 1..600 x 8 alignments x {random, all-zero, all-0xff, embedded NULs, high-bit}, complete in every run; plus random sizes up to 1 MiB and qhashmd5_file over files of 0/1/32767/32768/32769/102400 bytes with whole/to-end/inner/out-of-range (offset, length) requests. '
-         'thorough tier only: MD5 of one buffer of 2^32+5 bytes (a length that does not fit 32 bits). distinct = distinct cells + file requests.',
+         'thorough tier only: MD5 of one buffer of 2^32+5 bytes, both Murmur3 functions on 2^31+1 bytes (lengths and block counts that do not fit 32 bits / an int), and MD5 of five ranges of a sparse 512 MiB+4133-byte file (the bit counter of the digest wraps while the file is fed in pieces). Every tier: four threads hashing different buffers and files at once, and the whole sparse file once. distinct = distinct cells + file requests.',
     exhaustive=True,
     require=['cells', 'large_sizes', 'file_ranges_in_range', 'file_ranges_out_of_range'],
     assumptions=['references in refs/ref_hash.c written from RFC 1321 / MurmurHash3 / FNV-1 descriptions, validated at start-up against published vectors',
